@@ -242,8 +242,8 @@ func registerStrings(in *Interp) {
 	s1 := func(f func(string) string) Intrinsic {
 		return func(th *Thread, fn *ssa.Function, a []Value) Value { return f(th.str(a[0], fn.Name())) }
 	}
-	in.reg("strings.ToLower", s1(strings.ToLower))
-	in.reg("strings.ToUpper", s1(strings.ToUpper))
+	in.reg("strings.ToLower", func(th *Thread, fn *ssa.Function, a []Value) Value { return th.ropeCase(a[0], false) })
+	in.reg("strings.ToUpper", func(th *Thread, fn *ssa.Function, a []Value) Value { return th.ropeCase(a[0], true) })
 	in.reg("strings.TrimSpace", s1(strings.TrimSpace))
 	in.reg("strings.Title", s1(strings.Title))
 	s2b := func(f func(string, string) bool) Intrinsic {
@@ -282,13 +282,13 @@ func registerStrings(in *Interp) {
 			return int64(f(th.str(a[0], fn.Name()), th.str(a[1], fn.Name())))
 		}
 	}
-	in.reg("strings.Index", s2i(strings.Index))
+	in.reg("strings.Index", func(th *Thread, fn *ssa.Function, a []Value) Value { return th.ropeIndex(a[0], th.str(a[1], "Index separator")) })
 	in.reg("strings.LastIndex", s2i(strings.LastIndex))
 	in.reg("strings.Count", s2i(strings.Count))
 	in.reg("strings.Compare", s2i(strings.Compare))
 	in.reg("strings.IndexAny", s2i(strings.IndexAny))
 	in.reg("strings.IndexByte", func(th *Thread, fn *ssa.Function, a []Value) Value {
-		return int64(strings.IndexByte(th.str(a[0], "IndexByte"), byte(th.concInt(a[1], "byte"))))
+		return th.ropeIndex(a[0], string([]byte{byte(th.concInt(a[1], "byte"))}))
 	})
 	in.reg("strings.IndexRune", func(th *Thread, fn *ssa.Function, a []Value) Value {
 		return int64(strings.IndexRune(th.str(a[0], "IndexRune"), rune(th.concInt(a[1], "rune"))))
@@ -1247,6 +1247,73 @@ func flattenChunks(chunks []Value) Value {
 		out = concatStr(out, c)
 	}
 	return out
+}
+
+// ropeCase is strings.ToUpper/ToLower; symbolic bytes must be ASCII (a decision: the
+// non-ASCII side leaves the fragment), where the mapping is the byte-wise one.
+func (th *Thread) ropeCase(s Value, upper bool) Value {
+	f := strings.ToLower
+	if upper {
+		f = strings.ToUpper
+	}
+	if c, ok := s.(string); ok {
+		return f(c)
+	}
+	r := s.(*Rope)
+	if c, ok := normRope(r).(string); ok {
+		return f(c)
+	}
+	out := &Rope{}
+	for _, sg := range r.Segs {
+		switch {
+		case sg.B != nil:
+			b := sg.B
+			if !th.branch(fromBoolTerm(sym.BVCmp("bvult", b, sym.BVConst(0x80, 8)))) {
+				panic(unsupported("ToUpper/ToLower of a non-ASCII symbolic byte"))
+			}
+			lo, hi, d := byte('a'), byte('z'), uint64(0xE0) // -32 mod 256
+			if !upper {
+				lo, hi, d = 'A', 'Z', 0x20
+			}
+			in := sym.And(sym.BVCmp("bvule", sym.BVConst(uint64(lo), 8), b), sym.BVCmp("bvule", b, sym.BVConst(uint64(hi), 8)))
+			out.Segs = append(out.Segs, Seg{B: sym.Ite(in, sym.BVBin("bvadd", b, sym.BVConst(d, 8)), b)})
+		case sg.D != nil, sg.H != nil:
+			out.Segs = append(out.Segs, sg) // digits and hash tokens have no case
+		default:
+			out.Segs = append(out.Segs, Seg{S: f(sg.S)})
+		}
+	}
+	return normRope(out)
+}
+
+// ropeIndex is strings.Index for a concrete separator over a string that may hold
+// symbolic bytes: each candidate position whose match is not decided concretely is a
+// solver-checked decision, earliest position first.
+func (th *Thread) ropeIndex(s Value, sep string) Value {
+	if c, ok := s.(string); ok {
+		return int64(strings.Index(c, sep))
+	}
+	r, ok := s.(*Rope)
+	if !ok {
+		panic(fmt.Sprintf("ropeIndex on %T", s))
+	}
+	if c, ok := normRope(r).(string); ok {
+		return int64(strings.Index(c, sep))
+	}
+	bs, ok := r.bytes()
+	if !ok {
+		panic(unsupported("symbolic string as Index: %v", r))
+	}
+	for i := 0; i+len(sep) <= len(bs); i++ {
+		acc := sym.True
+		for j := 0; j < len(sep) && !acc.IsFalse(); j++ {
+			acc = sym.And(acc, sym.Eq(toBV(bs[i+j], 8), toBV(int64(sep[j]), 8)))
+		}
+		if th.branch(fromBoolTerm(acc)) {
+			return int64(i)
+		}
+	}
+	return int64(-1)
 }
 
 func (th *Thread) bytesEqual(x, y []Value) Value {
